@@ -7,6 +7,7 @@ All theorems quantify over *every* history `ops : List Op` (reads, Exec writes, 
 writes, clock advances, cleaner ticks, with every placement of faults), every configuration `c`.
 -/
 import GoZero.C06.Proofs3
+import GoZero.C06.Flight
 namespace GoZero.C06
 
 /-! ## 1. Coherent reads -/
@@ -194,6 +195,28 @@ theorem index_primary_outlives_index (c : Cfg) (s : St) (a j : Nat) (r : Nat × 
     ∧ (qindex c s a j [] false).2.res = .val r.2 := by
   unfold qindex getCache setex
   simp [failAt, hmiss, hr, upd, safeGapSec]
+
+/-! ## 5. Single loader per key -/
+
+/-- **at most one database query per key is in flight**, for any number of concurrent readers and every
+schedule: in the interleaving model of `doTake`'s load inside `barrier.DoEx` (Flight.lean; createCall /
+makeCall tied by `tie_createCallShape` / `tie_makeCallShape`, the load being wholly inside the barrier by
+`tie_doTakeShape` / `tie_doTakeFacts`), two goroutines executing the database query are the same goroutine.
+(That followers receive the leader's value is C07's SingleFlight property; here it is checked at run time by the
+harness op `ctake`.) -/
+theorem single_loader_per_key (s : Flight.Cfg) (h : Flight.Reachable s) (t u : Nat)
+    (ht : s.pc t = 2) (hu : s.pc u = 2) : t = u := by
+  have hi := Flight.inv_reachable h
+  have h1 := hi t (Or.inr ht)
+  have h2 := hi u (Or.inr hu)
+  rw [h1] at h2
+  exact Option.some.inj h2
+
+/-- non-vacuity: a schedule in which goroutine 0 is querying while goroutine 1 waits on its call. -/
+example : ∃ s, Flight.Reachable s ∧ s.pc 0 = 2 ∧ s.pc 1 = 3 := by
+  refine ⟨_, .step 1 (.step 0 (.step 0 .init (s' := ⟨Flight.upd (fun _ => 0) 0 1, some 0, 0, fun _ => 0⟩) rfl)
+      (s' := ⟨Flight.upd (Flight.upd (fun _ => 0) 0 1) 0 2, some 0, 0, fun _ => 0⟩) rfl)
+      (s' := ⟨Flight.upd (Flight.upd (Flight.upd (fun _ => 0) 0 1) 0 2) 1 3, some 0, 0, Flight.upd (fun _ => 0) 1 0⟩) rfl, rfl, rfl⟩
 
 /-! ## Non-vacuity -/
 
